@@ -1,11 +1,14 @@
 """Per-property MANIFEST entries (level, text, trusted base, technique)."""
 CHECKS = {
     "C07": {
+        "families": ("processor",),
         "level": "proof",
         "technique": "Lean 4 theorems (omega, all n : Nat) over formulas re-translated from Go/Solidity/Ralph source on every run",
         "text": ("The three quorum formulas are translated from /repo's current sources into Lean definitions on every run and the "
                  "theorems (each equals 2n/3+1, exceeds 2n/3, at most n, two quorums intersect in more than n/3) are re-checked by "
-                 "the Lean kernel for every natural n. The translator is validated against the compiled Go function on n=0..255."),
+                 "the Lean kernel for every natural n. The translator is validated against the compiled Go function on n=0..255. "
+                 "'Complete for the node => accepted on chain' is a theorem about the contract model and, on the real Processor, the Spec "
+                 "clause complete-vaa-rejected-on-chain judged on every VAA it publishes or stores."),
         "note": ("Trusted: Lean kernel; tools/exprtrans.py and the locating regexes; Solidity/Ralph unsigned truncating division; "
                  "contracts are not executed (no solc/VM offline). Go int overflow out of scope (n < 2^59)."),
     },
@@ -35,7 +38,7 @@ CHECKS.update({
                  "inputs, not proved; bytes.Reader/encoding/binary are exercised, not modelled."),
     },
     "C06": {
-        "families": ("vaa",),
+        "families": ("vaa", "processor"),
         "level": "proof",
         "technique": "Lean 4 iff-theorem (verifySignatures = true <-> Valid) for lists of any length with ecrecover as an abstract oracle, tied by differential execution of VerifySignatures",
         "text": ("verify_iff proves, for guardian and signature lists of any length and any recover oracle, that the model of VerifySignatures "
@@ -122,7 +125,7 @@ CHECKS.update({
                  "multi-message injection modelled as is."),
     },
     "C11": {
-        "families": ("alphutil",),
+        "families": ("alphutil", "alphwatch"),
         "level": "proof",
         "technique": "Lean 4 theorems (exact iff-characterisations of every converter, inversion of ToWormholeMessage, round trips incl. a proved base58 codec) over a hand model of alephium/utils.go tied by differential execution; contract layout re-extracted from the .ral sources and compared by decide",
         "text": ("For every field list: ToWormholeMessage accepts iff there are six fields of the declared types whose numerals/hex denote a 32-byte "
